@@ -9,8 +9,35 @@ fn sh(script: &str) -> Arc<Command> {
     Arc::new(Command { program: Program::Shell { shell: Shell::new("sh"), command: script.into(), args: Vec::new() }, options: Default::default() })
 }
 
+unsafe fn libc_kill(pid: i32) { extern "C" { fn kill(pid: i32, sig: i32) -> i32; } kill(pid, 9); }
+
 async fn run(name: &str) -> Result<(), String> {
     match name {
+        // C08: after a graceful stop + delete of a GROUPED command, no member of its process group is left running
+        "grouped_graceful_stop_leaves_no_member" => {
+            let dir = std::env::temp_dir().join(format!("vx-replay-sup-{}", std::process::id()));
+            let _ = std::fs::remove_dir_all(&dir); std::fs::create_dir_all(&dir).unwrap();
+            let pidfile = dir.join("member.pid");
+            // the leader (sh) dies of SIGTERM; a member of its group ignores SIGTERM and keeps running
+            let script = format!("sh -c 'trap \"\" TERM; echo $$ > {}; exec sleep 30' & wait", pidfile.display());
+            let cmd = Arc::new(Command { program: Program::Shell { shell: Shell::new("sh"), command: script, args: Vec::new() },
+                                         options: watchexec_supervisor::command::SpawnOptions { grouped: true, ..Default::default() } });
+            let (job, task) = start_job(cmd);
+            job.start().await;
+            let mut pid = None;
+            for _ in 0..100 { tokio::time::sleep(Duration::from_millis(20)).await; if let Ok(t) = std::fs::read_to_string(&pidfile) { if let Ok(p) = t.trim().parse::<i32>() { pid = Some(p); break; } } }
+            let pid = pid.ok_or_else(|| "setup: the group member never wrote its pid".to_string())?;
+            // what the action worker does for a graceful quit: stop_with_signal(signal, grace) then delete().await
+            job.stop_with_signal(Signal::Terminate, Duration::from_millis(1500));
+            timeout(Duration::from_secs(10), job.delete()).await.map_err(|_| "delete() ticket unresolved after 10 s".to_string())?;
+            let _ = timeout(Duration::from_secs(5), task).await;
+            tokio::time::sleep(Duration::from_millis(300)).await;
+            let alive = std::path::Path::new(&format!("/proc/{pid}")).exists()
+                && !std::fs::read_to_string(format!("/proc/{pid}/stat")).map(|s| s.contains(") Z ")).unwrap_or(false);
+            if alive { unsafe { libc_kill(pid); } }
+            let _ = std::fs::remove_dir_all(&dir);
+            if alive { Err(format!("group member {pid} (ignores SIGTERM) is still running after stop_with_signal(Terminate, 1.5s) + delete() completed and the job task ended: the leader died of the signal inside the grace period, nothing killed the rest of the group")) } else { Ok(()) }
+        }
         // C18 (BOUNDED fallback, consulted only when the deductive check is undecided): the argv handed to the OS is exactly the configured one,
         // for every list of up to 3 arguments over a fixed alphabet of awkward strings, with and without a shell
         "argv_exact_bounded" => {
